@@ -85,7 +85,7 @@ REACH_EXPECTED = ['tie_event_first', 'tie_repetition_first', 'same_instant_event
                   'count_reached', 'restart_numbering', 'unlimited_long', 'foreign_type',
                   'implicit_repeat', 'chain_repetition_forwarded', 'chain_direct_to_second',
                   'stop_with_pending_repetition', 'stop_at_repetition_instant', 'late_repetition',
-                  'bounced_event', 'string_interval']
+                  'bounced_event', 'string_interval', 'event_without_source']
 ASSUMPTIONS = [
     "latency-free zero-cost stratum: a repetition is demanded exactly 'interval' after the "
     "previous (re-)send, compared with 1 microsecond tolerance (float rounding of loop.time())",
@@ -183,7 +183,7 @@ def gen(rng, tier, index=0):
         data = {'k': n + 1, 'value': rng.choice(VALUES)}
         if rng.random() < 0.3:
             data['note'] = rng.choice(['x', [3], None])
-        op = {'t': round(t / 1e6, 6), 'to': idx, 'src': rng.choice(['sa', 'sa', 'sb', 'ext']),
+        op = {'t': round(t / 1e6, 6), 'to': idx, 'src': rng.choice(['sa', 'sa', 'sb', 'ext'] if rng.random() < 0.9 else ['raw']),
               'et': etype if kind == 'm' else rng.choice(foreign), 'data': data,
               'hops': rng.choice([0, 0, 0, 1, 2])}
         ops.append(op)
@@ -267,7 +267,7 @@ def build(run, plan):
         i = op.get('to', 0)
         if not isinstance(i, int) or not 0 <= i < len(blocks):
             raise PlanError('op refers to a missing Repeat')
-        if op.get('src') not in ('sa', 'sb', 'ext') or not isinstance(op.get('data'), dict) \
+        if op.get('src') not in ('sa', 'sb', 'ext', 'raw') or not isinstance(op.get('data'), dict) \
                 or not isinstance(op.get('et'), str) or not op['et']:
             raise PlanError('bad op')
         if any(key in op['data'] for key in ('source', 'orig_source', 'repeat')):
@@ -388,7 +388,11 @@ def execute(plan, trace=False):
             if op.get('hops'):
                 run.fired('reach:bounced_event')
             try:
-                if op['src'] == 'ext':
+                if op['src'] == 'raw':
+                    # the public SBlock.event() called directly: no 'source' item at all
+                    run.fired('reach:event_without_source')
+                    blocks[i].event(op['et'], **copy.deepcopy(op['data']))
+                elif op['src'] == 'ext':
                     edzed.ExtEvent(blocks[i], op['et'], source='drv').send(
                         **copy.deepcopy(op['data']))
                 else:
